@@ -25,6 +25,7 @@ type Env interface {
 	SetTap(f func(kind string, a, b any)) // nil to remove; no-op outside Engine A
 	Stdout() string                        // everything the library printed so far in this world
 	Instrumented() bool
+	Phase(name string) // names the configuration the task is in (appended to engine-level violation clauses)
 }
 
 // Violation is one oracle clause that failed.
@@ -41,6 +42,7 @@ type Outcome struct {
 	Viol    []Violation    `json:"viol,omitempty"`
 	Diverge int            `json:"diverge,omitempty"`
 	Probes  map[string]int `json:"probes,omitempty"`
+	Faults  map[string]int `json:"faults,omitempty"`
 	Info    string         `json:"info,omitempty"`
 }
 
@@ -53,6 +55,42 @@ func (o *Outcome) probe(name string) {
 		o.Probes = map[string]int{}
 	}
 	o.Probes[name]++
+}
+
+func (o *Outcome) fault(name string, n int) {
+	if n <= 0 {
+		return
+	}
+	if o.Faults == nil {
+		o.Faults = map[string]int{}
+	}
+	o.Faults[name] += n
+}
+
+// readerFaults records what the simulated reader actually did.
+func (o *Outcome) readerFaults(r *SimReader) {
+	if len(r.chunks) > 0 {
+		o.fault("reader-chunked-delivery", 1)
+	}
+	o.fault("reader-short-read", r.Shorts)
+	o.fault("reader-empty-read", r.Zeros)
+	o.fault("reader-cut-inside-token", r.TokenCuts)
+	if r.EOFWithData {
+		o.fault("reader-eof-with-data", 1)
+	}
+	if r.Failed {
+		o.fault("reader-io-error", 1)
+	}
+}
+
+func (o *Outcome) chanFault(capacity int, delays []int64, stop bool) {
+	o.fault(fmt.Sprintf("chan-capacity-%d", capacity), 1)
+	if len(delays) > 0 {
+		o.fault("consumer-delay-script", 1)
+	}
+	if stop {
+		o.fault("stop-signal", 1)
+	}
 }
 
 // Exec runs one task.
@@ -202,7 +240,13 @@ type SimReader struct {
 	FailAt  int // >0: return an error once pos reaches FailAt; -1: fail on first read
 	Reads   int
 	Zeros   int
+	Shorts      int
+	TokenCuts   int
+	EOFWithData bool
+	Failed      bool
 }
+
+func isBlank(b byte) bool { return b == ' ' || b == '\t' || b == '\n' || b == '\r' }
 
 var ErrSimIO = fmt.Errorf("simulated I/O error")
 
@@ -213,9 +257,11 @@ func NewSimReader(text string, chunks []int, eofWith bool) *SimReader {
 func (r *SimReader) Read(p []byte) (int, error) {
 	r.Reads++
 	if r.FailAt == -1 {
+		r.Failed = true
 		return 0, ErrSimIO
 	}
 	if r.FailAt > 0 && r.pos >= r.FailAt {
+		r.Failed = true
 		return 0, ErrSimIO
 	}
 	if r.pos >= len(r.data) {
@@ -250,7 +296,14 @@ func (r *SimReader) Read(p []byte) (int, error) {
 	}
 	copy(p, r.data[r.pos:r.pos+n])
 	r.pos += n
+	if n < len(p) && r.pos < len(r.data) {
+		r.Shorts++
+		if !isBlank(r.data[r.pos-1]) && !isBlank(r.data[r.pos]) {
+			r.TokenCuts++
+		}
+	}
 	if r.eofWith && r.pos >= len(r.data) {
+		r.EOFWithData = true
 		return n, io.EOF
 	}
 	return n, nil
